@@ -109,4 +109,7 @@ def check(world, tier):
              "a failed %s (%s) in %s does not lead to an Err result: state continues to %s"
              % (base_name(e).split("::")[-1], kind, short(e.body), ", ".join(sorted(set(bad)))), e.loc,
              sample={"fallible call": base_name(e), "in": short(e.body), "kind": kind, "survivors": len(bad)})
+    # stability needs the decoder to accept what the serializer emits for the packets the decoder itself returns
+    from . import C11
+    import_clause(world, tier, b, C11, "C11.c", ("minimal-",), "re-encodings of accepted packets are accepted")
     return rep
